@@ -25,19 +25,24 @@ def one(args):
 
 if __name__ == "__main__":
     patch = sys.argv[1]
-    props = sys.argv[2:] or sorted(registry.PROPS)
+    props = [a for a in sys.argv[2:] if a != "-v"] or sorted(registry.PROPS)
     ov = variants.seed_overrides("/repo", patch)
     if ov is None:
         print("PATCH DOES NOT APPLY"); sys.exit(3)
     rc = 0
+    groups = {}
     with ProcessPoolExecutor(max_workers=16) as ex:
         for prop, out in ex.map(one, [(p, ov) for p in props]):
-            if out:
+            for l in out:
                 rc = 1
-                for l in out[:4]:
-                    print(prop, l)
-                if len(out) > 4:
-                    print(prop, f"... {len(out)} in total")
+                groups.setdefault(l, []).append(prop)
+    seen = set()
+    for l, ps in groups.items():
+        head = " ".join(l.split()[:3])
+        if head in seen and "-v" not in sys.argv:
+            continue
+        seen.add(head)
+        print(f"{l[:260]}   <- {','.join(ps)}")
     if rc == 0:
-        print("all silent:", " ".join(props))
+        print("all silent")
     sys.exit(rc)
